@@ -898,6 +898,27 @@ func (c *c01) genRandom(seed int64, base, n int, big bool) {
 		}
 		t := randRootType(r)
 		v := randVal(r, t, 0, cfg)
+		if i%20 == 7 {
+			// wide containers and bulk lookups of (almost) all their children, in and out of wire order:
+			// exercises per-request bookkeeping beyond 64 / 128 requested paths
+			t, v = wideVal(r)
+			doc := v.Enc(nil)
+			c.out.Begin(base+i, map[string]interface{}{"t": int(t), "b": B(doc)})
+			valid, _ := itemsOf(v, rand.New(rand.NewSource(1))) // rand source with Intn(3) != 0 mostly: native key forms
+			var its []PItem
+			k0 := valid[0].K
+			for _, it := range valid {
+				if it.K == k0 {
+					its = append(its, it)
+				}
+			}
+			c.many(ManyCase{T: int(t), B: doc, Path: []PItem{}, Items: its})
+			sh := append([]PItem{}, its...)
+			r.Shuffle(len(sh), func(a, b int) { sh[a], sh[b] = sh[b], sh[a] })
+			c.many(ManyCase{T: int(t), B: doc, Path: []PItem{}, Items: sh})
+			c.run(ReadCase{T: int(t), B: doc, Path: []PItem{its[len(its)-1]}})
+			continue
+		}
 		doc := v.Enc(nil)
 		c.out.Begin(base+i, map[string]interface{}{"t": int(t), "b": B(doc)})
 		np := 4 + r.Intn(6)
@@ -936,6 +957,46 @@ func (c *c01) genRandom(seed int64, base, n int, big bool) {
 			c.many(ManyCase{T: int(t), B: doc, Path: pp, Items: its})
 		}
 	}
+}
+
+// wideVal makes a struct / list / map with 63..140 direct children
+func wideVal(r *rand.Rand) (byte, *Val) {
+	n := []int{63, 64, 65, 70, 127, 128, 129, 140}[r.Intn(8)]
+	cfg := &genCfg{maxDepth: 1, maxElems: 1, maxStr: 6}
+	switch r.Intn(3) {
+	case 0:
+		v := &Val{T: tSTRUCT}
+		for _, id := range r.Perm(n) {
+			v.F = append(v.F, Field{uint16(id + 1), randScalar(r, []byte{tI32, tSTR, tBOOL}[r.Intn(3)], cfg)})
+		}
+		if r.Intn(2) == 0 {
+			sortFields(v)
+		}
+		return tSTRUCT, v
+	case 1:
+		v := &Val{T: tLIST, ET: tI16}
+		for i := 0; i < n; i++ {
+			v.E = append(v.E, randScalar(r, tI16, cfg))
+		}
+		return tLIST, v
+	}
+	kt := []byte{tI32, tSTR, tI64}[r.Intn(3)]
+	v := &Val{T: tMAP, KT: kt, ET: tI32}
+	for i := 0; i < n; i++ {
+		var k *Val
+		if kt == tSTR {
+			k = &Val{T: tSTR, B: []byte(fmt.Sprintf("k%03d", i))}
+		} else {
+			kb := be8(int64(i*3 - 50))
+			k = &Val{T: kt, B: kb[8-fixedSize(kt):]}
+		}
+		v.P = append(v.P, Pair{k, randScalar(r, tI32, cfg)})
+	}
+	return tMAP, v
+}
+
+func sortFields(v *Val) {
+	sort.Slice(v.F, func(a, b int) bool { return v.F[a].ID < v.F[b].ID })
 }
 
 func walk(v *Val, items []PItem) *Val {
